@@ -18,6 +18,7 @@ import (
 	"encoding/hex"
 	"fmt"
 	"net/http"
+	"os"
 	"strings"
 	"sync"
 	"sync/atomic"
@@ -27,7 +28,13 @@ import (
 	"verif/internal/verdict"
 )
 
-const exchangeWatchdog = 150 * time.Second
+// VERIF_C08_WATCHDOG shortens it for the self-test of the watchdog path (selftest/mutants.py)
+var exchangeWatchdog = func() time.Duration {
+	if d, err := time.ParseDuration(os.Getenv("VERIF_C08_WATCHDOG")); err == nil && d > 0 {
+		return d
+	}
+	return 150 * time.Second
+}()
 
 type batch struct {
 	n       int32
@@ -55,6 +62,7 @@ type exchange struct {
 	plans        int // number of times the backend handled this tag
 	arrived      int32
 	clientWindow int
+	isolated     bool // repeated alone after a watchdog expiry
 }
 
 // logRing keeps the proxy's own log lines (error handler, body-copy errors) so
@@ -103,6 +111,42 @@ type world struct {
 	px      [2]*rig.Proxy // [0] default, [1] -preserve-host
 	reg     sync.Map      // tag -> *exchange
 	maxInFl int32
+
+	retryMu sync.Mutex
+	retried bool
+}
+
+// watchdogFired: an exchange did not complete within the watchdog. A wall-clock expiry alone is not a
+// verdict; the first such exchange of a run is repeated alone on a fresh connection, and only if it does
+// not complete there either is it reported (bounded-progress restatement of "passes through").
+func (w *world) watchdogFired(x *exchange, wit any, what string) {
+	if x.isolated {
+		w.run.Violation("exchange-never-completes", wit, "%s; it did not complete when repeated alone on a fresh connection either (watchdog %v each time)", what, exchangeWatchdog)
+		return
+	}
+	w.retryMu.Lock()
+	first := !w.retried
+	w.retried = true
+	w.retryMu.Unlock()
+	if !first {
+		w.run.Inconclusive("%s", what)
+		return
+	}
+	s2 := *x.s
+	s2.Tag += "-isolated"
+	cp := &connPlan{proto: s2.Proto, preserve: s2.Preserve, stat: &connStat{}, window: 65535, lazyWU: false}
+	if x.clientWindow > 0 {
+		cp.window = x.clientWindow
+	}
+	x2 := &exchange{s: &s2, conn: cp.stat, clientWindow: cp.window, isolated: true}
+	if s2.Proto != "h1" {
+		x2.b = newBatch(1)
+	}
+	w.reg.Store(s2.Tag, x2)
+	cp.batches = [][]*exchange{{x2}}
+	w.run.Logf("watchdog: %s - repeating the exchange alone", what)
+	w.runConn(cp)
+	w.run.Inconclusive("%s (the exchange was repeated alone and judged separately)", what)
 }
 
 func (w *world) proxy(preserve bool) *rig.Proxy {
@@ -278,7 +322,7 @@ func (w *world) judge(x *exchange) {
 	if sent == nil || !sent.Complete {
 		// the harness could not establish what was sent (client-side failure before/while writing)
 		if got != nil && got.Err != "" && strings.Contains(got.Err, "watchdog") {
-			run.Inconclusive("exchange %s (%s): watchdog fired: %s", s.Tag, s.Proto, got.Err)
+			w.watchdogFired(x, wit, fmt.Sprintf("exchange %s (%s): watchdog fired: %s", s.Tag, s.Proto, got.Err))
 			return
 		}
 		if got != nil && got.Err != "" {
@@ -296,7 +340,7 @@ func (w *world) judge(x *exchange) {
 	desc := fmt.Sprintf("%s %s %s %s (preserve-host=%v)", s.Tag, s.Proto, s.Method, clip(s.Target), s.Preserve)
 	if len(recs) == 0 {
 		if got != nil && strings.Contains(got.Err, "watchdog") {
-			run.Inconclusive("exchange %s: watchdog fired and no backend record: %s", desc, got.Err)
+			w.watchdogFired(x, wit, fmt.Sprintf("exchange %s: watchdog fired and no backend record: %s", desc, got.Err))
 			return
 		}
 		st := "no response"
@@ -324,7 +368,7 @@ func (w *world) judge(x *exchange) {
 			e = got.Err
 		}
 		if strings.Contains(e, "watchdog") {
-			run.Inconclusive("exchange %s: watchdog fired while reading the response: %s", desc, e)
+			w.watchdogFired(x, wit, fmt.Sprintf("exchange %s: watchdog fired while reading the response: %s", desc, e))
 		} else {
 			class := "response-aborted"
 			if s.Proto == "h1" && s.HasBody && s.DeclareCL && s.BodyLen > 0 {
